@@ -462,6 +462,9 @@ def run_translators():
     r = run([out, REPO, gen_tmp], env=base_env({"VERIF_GOFLAGS_CACHE": os.path.join(CACHE, "goflags.json")}))
     if r.returncode != 0:
         return False, r.stderr.decode(errors="replace")
+    ok_rt, msg_rt = gen_runtime_graph(gen_tmp)
+    if not ok_rt:
+        return False, msg_rt
     # only touch files whose content changed (keeps make incremental)
     lk = coq_lock()
     try:
@@ -475,4 +478,69 @@ def run_translators():
                     fh.write(new)
     finally:
         lk.close()
+    return True, ""
+
+
+def gen_runtime_graph(outdir):
+    """Gen/RuntimeGraph.v: garble's own stripRuntime (through the injected oracle) applied to the
+    runtime sources of the toolchain in use; the call graph of the result with callees resolved by go/types."""
+    try:
+        garble, _ = build_garble()
+    except BuildError as e:
+        return False, "garble with the oracle does not build: %s" % str(e)[-500:]
+    env = base_env()
+    r = run(["go", "list", "-json", "runtime"], env=env)
+    if r.returncode != 0:
+        return False, "go list runtime failed"
+    js = json.loads(r.stdout)
+    files = [os.path.join(js["Dir"], f) for f in js["GoFiles"]]
+    req = json.dumps({"op": "stripruntime", "args": files}).encode() + b"\n"
+    pr = subprocess.run([garble], input=req, env=base_env({"GARBLE_VERIF_ORACLE": "1"}), stdout=subprocess.PIPE, stderr=subprocess.PIPE)
+    if pr.returncode != 0:
+        return False, "stripruntime oracle failed: " + pr.stderr.decode(errors="replace")[-500:]
+    resp = json.loads(pr.stdout.decode().splitlines()[0])
+    if "funcs" not in resp:
+        return False, "stripruntime oracle: %r" % resp
+    funcs = resp["funcs"]
+    ids = {}
+    for f in funcs:
+        ids.setdefault(f["name"], len(ids) + 1)
+    inner_files = ("print.go", "debuglog.go", "hexdump.go", "write_err.go")
+    graph = {}
+    for f in funcs:
+        graph.setdefault(ids[f["name"]], set()).update(ids[c] for c in (f["calls"] or []) if c in ids)
+    sinks = sorted({ids[n] for n in ("gwrite", "writeErr", "writeErrData") if n in ids} | {ids[f["name"]] for f in funcs if f["raw_stderr"]})
+    # witness: everything that can reach a sink (Coq checks that it is closed and contains the sinks)
+    R = set(sinks)
+    changed = True
+    while changed:
+        changed = False
+        for fid, cs in graph.items():
+            if fid not in R and cs & R:
+                R.add(fid)
+                changed = True
+    inner = sorted({ids[f["name"]] for f in funcs if f["file"] in inner_files})
+    builtin_outside = sorted({ids[f["name"]] for f in funcs if f["builtin_print"] and f["file"] != "print.go"})
+    required = [n for n in ("printDebugLog", "hexdumpWords", "writeErrStr")]
+    emptied_required_calls = sorted({c for n in required for f in funcs if f["name"] == n for c in (f["calls"] or [])})
+    missing_required = [n for n in required if n not in ids]
+    marker_methods = sorted({ids[f["name"]] for f in funcs if f["name"].startswith("hexdumpMarker.")})
+
+    def nl_(l):
+        return "[" + ";".join(str(x) for x in l) + "]"
+    out = ["Definition graph : list (N * list N) :=\n  [" + ";\n   ".join("(%d, %s)" % (fid, nl_(sorted(cs))) for fid, cs in sorted(graph.items())) + "].",
+           "Definition sinks : list N := %s." % nl_(sinks),
+           "Definition reaching : list N := %s." % nl_(sorted(R)),
+           "Definition inner : list N := %s." % nl_(inner),
+           "Definition builtin_print_outside_print_go : list N := %s." % nl_(builtin_outside),
+           "Definition calls_left_in_required_strips : nat := %d." % (len(emptied_required_calls) + 100 * len(missing_required)),
+           "Definition marker_methods : list N := %s." % nl_(marker_methods),
+           "Definition n_functions : nat := %d." % len(ids)]
+    header = ("(* GENERATED by /verif/lib/vlib.py:gen_runtime_graph from garble's stripRuntime applied to GOROOT/src/runtime. Do not edit. *)\n"
+              "From Coq Require Import List NArith Bool.\nImport ListNotations.\nOpen Scope N_scope.\n\n")
+    with open(os.path.join(outdir, "RuntimeGraph.v"), "w") as fh:
+        fh.write(header + "\n\n".join(out) + "\n")
+    with open(os.path.join(outdir, "runtimegraph.json"), "w") as fh:
+        json.dump({"ids": ids, "frontier_names": [(f["name"], c) for f in funcs if f["file"] not in inner_files for c in (f["calls"] or [])
+                                                  if c in ids and ids[c] in R and ids[c] in set(inner)]}, fh)
     return True, ""
